@@ -560,8 +560,12 @@ static Token *subst(Token *tok, MacroArg *args, bool is_objlike) {
         if (arg->tok->kind == TK_EOF) {
           tok = tok->next->next->next;
         } else {
+          // __VA_ARGS__ is an operand of ##, so it is substituted
+          // without being macro-expanded first.
           cur = cur->next = copy_token(tok);
-          tok = tok->next->next;
+          for (Token *t = arg->tok; t->kind != TK_EOF; t = t->next)
+            cur = cur->next = copy_token(t);
+          tok = tok->next->next->next;
         }
         continue;
       }
